@@ -46,16 +46,16 @@ CHECKS = {
          "Correspondence only: key dtypes other than int64, float values, like-functions, +, ==, items/to_dict, HashSet.", "4.11, 10.3", ""),
  "C12": ("Coq proof count_correct / count_history / split-and-order invariance, fast_indices_correct + correspondence on batch histories",
          "After any sequence of batches every key reports initial + occurrences in the concatenation; non-keys contribute nothing; the fast index builder equals the general one.", "4.12, 10.3", ""),
- "C13": ("Coq proof unpack_pack, get_correct, getlist_correct, sliding_window_correct over Z with explicit mod 2^64 + correspondence",
-         "Registers as base-2^b digit strings; windows across register boundaries via the two-register shift lemma; any length.", "4.13, 10.3", ""),
+ "C13": ("Coq proof unpack_pack, get_correct, getlist_correct, sliding_window_correct over Z with explicit mod 2^64 + nine bitarray.py kernels re-translated from the source and tied + correspondence",
+         "Registers as base-2^b digit strings; windows across register boundaries via the two-register shift lemma; any length. The shift/mask/register arithmetic of __init__, __getitem__, pack, unpack and sliding_window is re-translated from bitarray.py on every run (uint64 wrap explicit) and proved equal to the model.", "4.13, 10.3", ""),
  "C14": ("Coq proof to_array_from_array, from_array_canonical, decode_from_array_R (float PER), canonical-form theorems of slicing / stepping / binary ufuncs / concatenation + dtype-wide correspondence incl. NaN/-0.0",
          "The code's decoder inverts its encoder for every non-empty array; boundaries canonical; no equal neighbours where promised. Canonical form is checked on every RunLengthArray the library returns.", "4.14, 10.3", ""),
- "C15": ("Coq proof get_slice_correct (every slice, every bound), get_position(s)_correct, get_bool_mask_correct, rl_windows_decode, rl_getitem_rlmask_correct + correspondence",
+ "C15": ("Coq proof get_slice_correct (every slice, every bound), get_position(s)_correct, get_bool_mask_correct, rl_windows_decode, rl_getitem_rlmask_correct + slice-bounds / step-subset / index-wrap kernels re-translated and tied + correspondence",
          "Run-length slicing decodes to Python's dense[a:b:c] for all bounds and steps; integer / list / mask / run-length-mask / window indexing equal the dense indexing.", "4.15, 10.3", ""),
  "C16": ("Coq proof apply_binary_correct (arbitrary unrelated boundaries), rl_map/sum/any/all/max/mean/hist/concat_correct + dtype-wide correspondence",
          "Merged-boundary binary ufunc decodes to map2 of the dense arrays and has no equal neighbours; reductions on run values equal reductions of the decoded array.", "4.16, 10.3", ""),
- "C17": ("Coq proofs from_ragged_decode, from_matrix_decode, rl2_select/map/concat/sum/max_argmax/col/ravel/elem + correspondence (model and dense numpy) for column ranges, column sums, counts",
-         "Row-wise lock-step representation. Column ranges / _col_sum / col_counts / any(axis=0) / from_intervals are modelled (Model/RLE2d.v) and decided by correspondence with the model and with numpy on the dense data (stated, not proved).", "4.17, 10.3", ""),
+ "C17": ("Coq proofs from_ragged_decode, from_matrix_decode, rl2_select/map/concat/sum/max_argmax/col/ravel/elem, rl2_col_sum(_matrix)_correct, rl2_col_counts_correct + step-subset kernel tie + correspondence (model and dense numpy), the only decision for column ranges, any(axis=0), from_intervals",
+         "Row-wise lock-step representation; column sums (sorted change events + running sums) and column counts decode to the dense column sums / counts for every column. Column ranges / any(axis=0) / from_intervals are modelled (Model/RLE2d.v) and decided by correspondence with the model and with numpy on the dense data (stated, not proved).", "4.17, 10.3", ""),
  "C18": ("Coq proof obj_select_entries / obj_item_entry / obj_concat_entries / obj_eqb_iff / varlen_rows + correspondence on run-time generated dataclasses",
          "Applying one selector to every field equals selecting entries of the table; concatenation concatenates the tables; VarLenArray concatenation right-aligns. Correspondence only: astype, iteration.", "4.18, 10.3", ""),
  "C19": ("Coq proof index_rows_width_independent, shape_codes_width_independent, geometry_additions_width_independent + all C01-C09 case sets run under both index widths (separate processes and in-process switch)",
